@@ -16,6 +16,7 @@ package graph
 import (
 	"context"
 	"fmt"
+	"os"
 	"regexp"
 	"sort"
 	"strconv"
@@ -309,16 +310,16 @@ func vSend(ctx context.Context, next any, data any) error {
 }
 
 // vRoute asks the connector's router for the consumer of one downstream pipeline.
-func vRoute(next any, id pipeline.ID) (any, error) {
+func vRoute(next any, id ...pipeline.ID) (any, error) {
 	switch r := next.(type) {
 	case connector.TracesRouterAndConsumer:
-		return r.Consumer(id)
+		return r.Consumer(id...)
 	case connector.MetricsRouterAndConsumer:
-		return r.Consumer(id)
+		return r.Consumer(id...)
 	case connector.LogsRouterAndConsumer:
-		return r.Consumer(id)
+		return r.Consumer(id...)
 	case xconnector.ProfilesRouterAndConsumer:
-		return r.Consumer(id)
+		return r.Consumer(id...)
 	}
 	return nil, fmt.Errorf("not a router: %T", next)
 }
@@ -578,6 +579,59 @@ type vDelivery struct {
 	trail []vNodeKey
 }
 
+// one call of router.Consumer(ids...) on a connector instance's router, and what a datum sent into the result reached
+type vProbe struct {
+	conn     vNodeKey
+	ids      [][2]int
+	accepted bool
+	got      []vDelivery
+}
+
+// vProbeRequests: the id lists a connector instance asks its router for (selective routing), derived from the
+// pipelines the router offers (sorted), the other pipelines of the configuration and a seed: none; all; all with one
+// replaced by a repetition (same length as the offer); all with one replaced by a pipeline that is not offered (same
+// length); a random list with repetitions of length 1..n+1, sometimes with a foreign id.
+func vProbeRequests(cfg *vCfg, ck vNodeKey, offered [][2]int) [][][2]int {
+	r := &vRand{s: cfg.failSeed ^ uint64(ck.a*131+ck.b*17+ck.id)*0xBF58476D1CE4E5B9}
+	var foreign [][2]int
+	for _, p := range cfg.pipes {
+		in := false
+		for _, o := range offered {
+			if o == [2]int{p.sig, p.name} {
+				in = true
+			}
+		}
+		if !in {
+			foreign = append(foreign, [2]int{p.sig, p.name})
+		}
+	}
+	foreign = append(foreign, [2]int{ck.b, 7}) // a pipeline that does not exist
+	n := len(offered)
+	reqs := [][][2]int{nil, append([][2]int(nil), offered...)}
+	if n >= 1 {
+		rep := append([][2]int(nil), offered...)
+		rep[n-1] = offered[r.Intn(n)]
+		if n >= 2 {
+			rep[n-1] = offered[r.Intn(n-1)]
+		}
+		reqs = append(reqs, rep)
+		fr := append([][2]int(nil), offered...)
+		fr[r.Intn(n)] = foreign[r.Intn(len(foreign))]
+		reqs = append(reqs, fr)
+		ln := 1 + r.Intn(n+1)
+		var rnd [][2]int
+		for i := 0; i < ln; i++ {
+			if r.Intn(8) == 0 {
+				rnd = append(rnd, foreign[r.Intn(len(foreign))])
+			} else {
+				rnd = append(rnd, offered[r.Intn(n)])
+			}
+		}
+		reqs = append(reqs, rnd)
+	}
+	return reqs
+}
+
 type vObs struct {
 	validateOK bool
 	class      int // 0 built, 1 unsupported, 2 cycle, 3 panic, 4 other error
@@ -591,6 +645,7 @@ type vObs struct {
 	delivF     map[vNodeKey][]vDelivery // fault pass: some components refuse
 	errF       map[vNodeKey]bool        // fault pass: did the receiver get an error back
 	refusing   []vNodeKey
+	probes     []vProbe
 	nilHostRejected bool
 	problems   [][2]string // (oracle kind, detail) found while observing
 	routers    map[vNodeKey][]string
@@ -932,6 +987,59 @@ func vRun(cfg *vCfg) (obs *vObs) {
 			}
 		}
 	}
+	// selective routing: ask every connector instance's router for chosen pipelines and send a probe datum through
+	for _, c := range reg.comps {
+		c.refusing = false
+	}
+	for _, c := range reg.comps {
+		if c.kind != 3 {
+			continue
+		}
+		ck := keyOf[c.serial]
+		offered := append([][2]int(nil), obs.routerPIDs[ck]...)
+		sort.Slice(offered, func(i, j int) bool {
+			return offered[i][0] < offered[j][0] || (offered[i][0] == offered[j][0] && offered[i][1] < offered[j][1])
+		})
+		for _, req := range vProbeRequests(cfg, ck, offered) {
+			pr := vProbe{conn: ck, ids: req}
+			ids := make([]pipeline.ID, len(req))
+			for i, q := range req {
+				ids[i] = vPID(q[0], q[1])
+			}
+			cons, err := vRoute(c.next, ids...)
+			pr.accepted = err == nil
+			if err == nil {
+				for _, e := range reg.comps {
+					e.got = nil
+				}
+				func() {
+					defer func() {
+						if x := recover(); x != nil {
+							obs.problems = append(obs.problems, [2]string{"panic-in-dataflow", fmt.Sprintf("probe through router of %s: %v", ck, x)})
+						}
+					}()
+					if err := vSend(context.Background(), cons, vNewData(c.sigOut, "P")); err != nil {
+						obs.problems = append(obs.problems, [2]string{"consume-error", "probe: " + err.Error()})
+					}
+				}()
+				for _, e := range reg.comps {
+					if e.kind != 2 {
+						continue
+					}
+					for _, tr := range e.got {
+						parts := strings.Split(tr, ";")
+						d := vDelivery{exp: keyOf[e.serial]}
+						for _, p := range parts[1:] {
+							n, _ := strconv.Atoi(p)
+							d.trail = append(d.trail, keyOf[n])
+						}
+						pr.got = append(pr.got, d)
+					}
+				}
+			}
+			obs.probes = append(obs.probes, pr)
+		}
+	}
 	for _, c := range reg.comps {
 		for _, a := range c.anomalies {
 			obs.problems = append(obs.problems, [2]string{"component-anomaly", a})
@@ -987,10 +1095,17 @@ func vFactoryKeys(reg *vReg) []vNodeKey {
 }
 
 // ---- direct oracle: what the configuration says, computed without the graph code -------------------------
+type vProbeExp struct {
+	ids      [][2]int
+	accepted bool
+	deliv    []string
+}
+
 type vExpect struct {
 	class     int
 	instances map[vNodeKey]bool
 	deliv     map[vNodeKey][]string // receiver -> sorted "exp|trail" strings
+	probes    map[vNodeKey][]vProbeExp
 	delivF    map[vNodeKey][]string // the same when the components chosen by failSeed refuse
 	errF      map[vNodeKey]bool
 	routers   map[vNodeKey][]string
@@ -1017,7 +1132,7 @@ func vDelivStr(d vDelivery) string {
 }
 
 func vOracle(cfg *vCfg) *vExpect {
-	ex := &vExpect{instances: map[vNodeKey]bool{}, deliv: map[vNodeKey][]string{}, delivF: map[vNodeKey][]string{}, errF: map[vNodeKey]bool{}, routers: map[vNodeKey][]string{},
+	ex := &vExpect{instances: map[vNodeKey]bool{}, probes: map[vNodeKey][]vProbeExp{}, deliv: map[vNodeKey][]string{}, delivF: map[vNodeKey][]string{}, errF: map[vNodeKey]bool{}, routers: map[vNodeKey][]string{},
 		badExp: map[[2]int]bool{}, badRecv: map[[2]int]bool{}, onCycle: map[[2]int]bool{}}
 	// duplicated processor in one pipeline: the node would be added twice
 	for _, p := range cfg.pipes {
@@ -1210,6 +1325,45 @@ func vOracle(cfg *vCfg) *vExpect {
 			}
 		}
 	}
+	// selective routing probes: a request is served iff non-empty and every id is offered; then each requested
+	// pipeline gets the datum once per request
+	faults = false
+	for ck := range ex.routers {
+		var offered [][2]int
+		for _, q := range cfg.pipes {
+			if q.sig == ck.b && vHas(q.recv, ck.id) {
+				offered = append(offered, [2]int{q.sig, q.name})
+			}
+		}
+		sort.Slice(offered, func(i, j int) bool {
+			return offered[i][0] < offered[j][0] || (offered[i][0] == offered[j][0] && offered[i][1] < offered[j][1])
+		})
+		for _, req := range vProbeRequests(cfg, ck, offered) {
+			pe := vProbeExp{ids: req, accepted: len(req) > 0}
+			var idx []int
+			for _, id := range req {
+				found := -1
+				for qi, q := range cfg.pipes {
+					if [2]int{q.sig, q.name} == id && q.sig == ck.b && vHas(q.recv, ck.id) {
+						found = qi
+					}
+				}
+				if found < 0 {
+					pe.accepted = false
+				}
+				idx = append(idx, found)
+			}
+			if pe.accepted {
+				out := []string{}
+				for _, qi := range idx {
+					walk(qi, nil, &out)
+				}
+				sort.Strings(out)
+				pe.deliv = out
+			}
+			ex.probes[ck] = append(ex.probes[ck], pe)
+		}
+	}
 	for pass := 0; pass < 2; pass++ {
 		faults = pass == 1
 		for _, p := range cfg.pipes {
@@ -1243,6 +1397,45 @@ func vOracle(cfg *vCfg) *vExpect {
 	return ex
 }
 
+// vCycleLinked: may y directly follow x in a cycle message (capabilities / fan-out nodes are not printed)?
+func vCycleLinked(cfg *vCfg, x, y vNodeKey) bool {
+	pipe := func(sig, name int) *vPipe {
+		for i := range cfg.pipes {
+			if cfg.pipes[i].sig == sig && cfg.pipes[i].name == name {
+				return &cfg.pipes[i]
+			}
+		}
+		return nil
+	}
+	switch {
+	case x.kind == 3 && y.kind == 1: // connector -> first processor of a pipeline it feeds
+		p := pipe(y.a, y.b)
+		return p != nil && p.sig == x.b && vHas(p.recv, x.id) && len(p.procs) > 0 && p.procs[0] == y.id
+	case x.kind == 1 && y.kind == 1: // consecutive processors of one pipeline
+		p := pipe(x.a, x.b)
+		if p == nil || x.a != y.a || x.b != y.b {
+			return false
+		}
+		for i := 0; i+1 < len(p.procs); i++ {
+			if p.procs[i] == x.id && p.procs[i+1] == y.id {
+				return true
+			}
+		}
+		return false
+	case x.kind == 1 && y.kind == 3: // last processor -> a connector the pipeline exports to
+		p := pipe(x.a, x.b)
+		return p != nil && len(p.procs) > 0 && p.procs[len(p.procs)-1] == x.id && y.a == p.sig && vHas(p.exps, y.id)
+	case x.kind == 3 && y.kind == 3: // through a pipeline without processors
+		for i := range cfg.pipes {
+			p := &cfg.pipes[i]
+			if len(p.procs) == 0 && p.sig == x.b && p.sig == y.a && vHas(p.recv, x.id) && vHas(p.exps, y.id) {
+				return true
+			}
+		}
+	}
+	return false
+}
+
 func vKeysSorted(l []vNodeKey) []string {
 	s := make([]string, len(l))
 	for i, k := range l {
@@ -1255,6 +1448,24 @@ func vKeysSorted(l []vNodeKey) []string {
 func vCompare(out *vOut, term string, cfg *vCfg, obs *vObs, ex *vExpect) {
 	for _, p := range obs.problems {
 		out.Oracle(p[0], term, p[1])
+	}
+	// the configuration is valid iff there is a pipeline and every pipeline has a receiver, an exporter and no
+	// processor id twice (ids are type/name: two processors of one type with different names are fine)
+	valid := len(cfg.pipes) > 0
+	for _, p := range cfg.pipes {
+		seen := map[int]bool{}
+		for _, x := range p.procs {
+			if seen[x] {
+				valid = false
+			}
+			seen[x] = true
+		}
+		if len(p.recv) == 0 || len(p.exps) == 0 {
+			valid = false
+		}
+	}
+	if valid != obs.validateOK {
+		out.Oracle("validate-verdict", term, fmt.Sprintf("configuration valid=%v, Validate accepted=%v", valid, obs.validateOK))
 	}
 	if obs.class != ex.class {
 		out.Oracle("error-class", term, fmt.Sprintf("configuration says class %d, Build gave class %d (%s)", ex.class, obs.class, obs.errText))
@@ -1285,6 +1496,12 @@ func vCompare(out *vOut, term string, cfg *vCfg, obs *vObs, ex *vExpect) {
 	case 2:
 		if len(obs.detail) < 2 || obs.detail[0].kind != 3 || obs.detail[0] != obs.detail[len(obs.detail)-1] {
 			out.Oracle("cycle-message-shape", term, obs.errText)
+		}
+		for i := 0; i+1 < len(obs.detail); i++ {
+			if !vCycleLinked(cfg, obs.detail[i], obs.detail[i+1]) {
+				out.Oracle("cycle-message-not-a-cycle", term, fmt.Sprintf("%s is not followed by %s in the configuration: %s", obs.detail[i], obs.detail[i+1], obs.errText))
+				break
+			}
 		}
 		for _, d := range obs.detail {
 			switch d.kind {
@@ -1347,6 +1564,28 @@ func vCompare(out *vOut, term string, cfg *vCfg, obs *vObs, ex *vExpect) {
 	// deliveries
 	if len(obs.deliv) != len(ex.deliv) {
 		out.Oracle("receiver-set", term, fmt.Sprintf("expected %d receivers, injected at %d", len(ex.deliv), len(obs.deliv)))
+	}
+	seenProbe := map[vNodeKey]int{}
+	for _, pr := range obs.probes {
+		i := seenProbe[pr.conn]
+		seenProbe[pr.conn]++
+		if i >= len(ex.probes[pr.conn]) {
+			out.Oracle("router-consumer", term, fmt.Sprintf("unexpected probe on %s", pr.conn))
+			continue
+		}
+		pe := ex.probes[pr.conn][i]
+		if pe.accepted != pr.accepted {
+			out.Oracle("router-consumer", term, fmt.Sprintf("connector %s: Consumer(%v) accepted=%v, the offer says %v", pr.conn, pr.ids, pr.accepted, pe.accepted))
+			continue
+		}
+		gotL := []string{}
+		for _, d := range pr.got {
+			gotL = append(gotL, vDelivStr(d))
+		}
+		sort.Strings(gotL)
+		if a, b := strings.Join(pe.deliv, " "), strings.Join(gotL, " "); a != b {
+			out.Oracle("router-consumer", term, fmt.Sprintf("connector %s: Consumer(%v) should feed [%s], fed [%s]", pr.conn, pr.ids, a, b))
+		}
 	}
 	for rk, want := range ex.errF {
 		if got := obs.errF[rk]; got != want {
@@ -1466,9 +1705,20 @@ func vTerm(cfg *vCfg, obs *vObs) string {
 		}
 		rs = append(rs, vPair(ck.term(), vList(ids)))
 	}
+	var prs []string
+	for _, pr := range obs.probes {
+		var ids, got []string
+		for _, q := range pr.ids {
+			ids = append(ids, vPair(vNat(q[0]), vNat(q[1])))
+		}
+		for _, d := range pr.got {
+			got = append(got, vPair(d.exp.term(), vKeys(d.trail)))
+		}
+		prs = append(prs, vPair(pr.conn.term(), vPair(vList(ids), vPair(vBool(pr.accepted), vList(got)))))
+	}
 	cls := obs.class
 	return vPair(vPair(vList(ps), vPair(vList(cs), vList(np))),
-		vPair(vBool(obs.validateOK), vPair(vNat(cls), vPair(vKeys(obs.detail), vPair(vKeys(obs.created), vPair(vKeys(obs.started), vPair(vList(ds), vPair(vList(dsro), vPair(vList(rs), vPair(vKeys(obs.refusing), vPair(vList(dsf), vPair(vList(errs), vBool(obs.nilHostRejected)))))))))))))
+		vPair(vBool(obs.validateOK), vPair(vNat(cls), vPair(vKeys(obs.detail), vPair(vKeys(obs.created), vPair(vKeys(obs.started), vPair(vList(ds), vPair(vList(dsro), vPair(vList(rs), vPair(vKeys(obs.refusing), vPair(vList(dsf), vPair(vList(errs), vPair(vBool(obs.nilHostRejected), vList(prs))))))))))))))
 }
 
 // ---- generator -----------------------------------------------------------------------------------------
@@ -1482,11 +1732,18 @@ func vGen(rng *vRand, out *vOut) *vCfg {
 		sigs[i], sigs[j] = sigs[j], sigs[i]
 	}
 	sigs = sigs[:nsig]
+	wide := rng.Intn(100) < 15 // many pipelines of ONE signal sharing a receiver and fed by one connector
+	if wide {
+		np = 4 + rng.Intn(3)
+	}
 	used := map[[2]int]bool{}
 	for len(cfg.pipes) < np {
-		p := vPipe{sig: sigs[rng.Intn(nsig)], name: rng.Intn(3)}
+		p := vPipe{sig: sigs[rng.Intn(nsig)], name: rng.Intn(6)}
+		if wide && rng.Intn(4) > 0 {
+			p.sig = sigs[0]
+		}
 		if used[[2]int{p.sig, p.name}] {
-			if len(used) >= nsig*3 {
+			if len(used) >= nsig*6 {
 				break
 			}
 			continue
@@ -1563,7 +1820,7 @@ func vGen(rng *vRand, out *vOut) *vCfg {
 				}
 			}
 			// prefer supported pairs so that most configurations build
-			if !cfg.supp(k, cfg.pipes[i].sig, cfg.pipes[j].sig) && rng.Intn(10) < 7 {
+			if !cfg.supp(k, cfg.pipes[i].sig, cfg.pipes[j].sig) && rng.Intn(10) < 9 {
 				m |= 1 << uint(cfg.pipes[i].sig*4+cfg.pipes[j].sig)
 				cfg.conns[k] = m
 			}
@@ -1580,6 +1837,31 @@ func vGen(rng *vRand, out *vOut) *vCfg {
 				cfg.pipes[i].exps = append(cfg.pipes[i].exps, k)
 			} else {
 				cfg.pipes[i].recv = append(cfg.pipes[i].recv, k)
+			}
+		}
+	}
+	// wide fan-out: one receiver listed by MANY pipelines of a signal, one connector feeding many pipelines (>3)
+	if wide && np >= 2 {
+		s0 := sigs[0]
+		k := 30
+		m := uint16(1<<uint(s0*4+s0)) | uint16(rng.U64()&rng.U64())
+		cfg.conns[k] = m
+		cfg.stable[k] = s0 != 3 && rng.Bool()
+		cfg.order = append(cfg.order, k)
+		first := true
+		for i := range cfg.pipes {
+			p := &cfg.pipes[i]
+			if p.sig != s0 {
+				continue
+			}
+			if !vHas(p.recv, 0) {
+				p.recv = append(p.recv, 0)
+			}
+			if first {
+				p.exps = append(p.exps, k)
+				first = false
+			} else {
+				p.recv = append(p.recv, k)
 			}
 		}
 	}
@@ -1669,6 +1951,16 @@ func vStats(out *vOut, cfg *vCfg, obs *vObs) {
 		out.Stat("configs_with_stable_plain_factories", 1)
 	}
 	out.Stat(fmt.Sprintf("naming_scheme_%d", cfg.scheme), 1)
+	for _, pr := range obs.probes {
+		switch {
+		case !pr.accepted:
+			out.Stat("router_probe_refused", 1)
+		case len(pr.ids) == len(obs.routerPIDs[pr.conn]):
+			out.Stat("router_probe_accepted_len_eq_offer", 1)
+		default:
+			out.Stat("router_probe_accepted_other", 1)
+		}
+	}
 	if obs.class == 0 {
 		out.Stat(fmt.Sprintf("refusing_components_%d", min(len(obs.refusing), 5)), 1)
 		cut, err := 0, 0
@@ -1708,6 +2000,31 @@ func vStats(out *vOut, cfg *vCfg, obs *vObs) {
 		}
 	}
 	out.Stat(fmt.Sprintf("max_connector_hops_%d", maxHops), 1)
+	maxOffer := 0
+	for _, ids := range obs.routerPIDs {
+		if len(ids) > maxOffer {
+			maxOffer = len(ids)
+		}
+	}
+	out.Stat(fmt.Sprintf("max_router_offer_%d", maxOffer), 1)
+	maxShare := 0
+	for _, p := range cfg.pipes {
+		for _, r := range p.recv {
+			if cfg.isConn(r) {
+				continue
+			}
+			n := 0
+			for _, q := range cfg.pipes {
+				if q.sig == p.sig && vHas(q.recv, r) {
+					n++
+				}
+			}
+			if n > maxShare {
+				maxShare = n
+			}
+		}
+	}
+	out.Stat(fmt.Sprintf("max_receiver_sharing_%d", maxShare), 1)
 	// receivers whose only downstream consumer is one pipeline that mutates (the lone-mutating-consumer fan-out)
 	for _, p := range cfg.pipes {
 		for _, r := range p.recv {
@@ -1758,6 +2075,23 @@ func TestVerifC09(t *testing.T) {
 	defer out.Close()
 	if err := featuregate.GlobalRegistry().Set("service.profilesSupport", true); err != nil {
 		t.Fatal(err)
+	}
+	// configurations handed in by the check driver (failing-input search after a broken tie obligation):
+	// "E,R,x,mask;..." = a connector with factory kind x and requested pair mask between a pipeline of signal E and one of R
+	if extra := os.Getenv("VERIF_C09_EXTRA_CFGS"); extra != "" {
+		for _, item := range strings.Split(extra, ";") {
+			var e, r, x, mask int
+			if n, _ := fmt.Sscanf(item, "%d,%d,%d,%d", &e, &r, &x, &mask); n != 4 {
+				continue
+			}
+			cfg := &vCfg{pipes: []vPipe{{sig: e, name: 0, recv: []int{0}, exps: []int{10}}, {sig: r, name: 1, recv: []int{10}, exps: []int{0}}},
+				conns: map[int]uint16{10: uint16(mask)}, order: []int{10}, stable: map[int]bool{10: x == 0}}
+			vOne(out, cfg)
+			out.Stat("extra_configurations_from_search", 1)
+		}
+		if os.Getenv("VERIF_C09_EXTRA_ONLY") != "" {
+			return
+		}
 	}
 	rng := vNewRand(9)
 	n := vBudget(450, 10)
